@@ -176,13 +176,14 @@ func (p *c13) Run(ci any, env *core.Env) *core.Failure {
 	var disturbed []string
 	last := histOp{Kind: ""}
 	lastRes := ""
+	wrappedOnce := false
 	mk := func(kind string, op histOp, exp, got string) *core.Failure {
 		hc := "ascii"
 		if op.Hay < len(hays) {
 			hc = feat.HayClass(hays[op.Hay])
 		}
 		d := &core.Disc{Prop: "C13", API: "basket", Group: "history", Mode: modeName(c.Mode), Kind: kind, Layer: "meta", Strategy: strat, Feats: feats, Hay: hc,
-			Site: strings.Join(disturbed, "+"), Expected: exp, Observed: got}
+			Site: strings.Join(disturbed, "+") + tinyTag(c), Expected: exp, Observed: got}
 		return env.Known(d, c)
 	}
 	for _, op := range c.Ops {
@@ -203,7 +204,15 @@ func (p *c13) Run(ci any, env *core.Env) *core.Failure {
 			}
 			disturbed = appendUniq(disturbed, "burst")
 		case "wrap":
-			if r.VerifEngine().VerifSetBacktrackerGeneration(65533) {
+			// The hook may only move the epoch FORWARD, once: setting the same generation twice
+			// would re-use generation values without the clear the library performs on a real
+			// wrap-around and manufacture a stale-visited state (harness-made false alarm,
+			// DESIGN.md section 13). Later wrap-arounds in the sequence happen for real.
+			if wrappedOnce {
+				continue
+			}
+			wrappedOnce = true
+			if r.VerifEngine().VerifSnapshot().BacktrackerGeneration < 60000 && r.VerifEngine().VerifSetBacktrackerGeneration(65533) {
 				disturbed = appendUniq(disturbed, "wrap")
 				env.Count("disturb", "wrap_applied")
 			}
@@ -290,4 +299,11 @@ func summarizeHist(c *histCase) any {
 		cp.Hays = append(cp.Hays, h)
 	}
 	return &cp
+}
+
+func tinyTag(c *histCase) string {
+	if c.Tiny {
+		return "+tinydfa"
+	}
+	return ""
 }
